@@ -43,7 +43,8 @@ HISTORY_ROOTS = {
 
 # rules of another property that decide a clause this property depends on (the function lives in the other property's files, the behaviour is part of both)
 BORROWED = {
-    'C01': [('c03', ('MID-DEF', 'ZEROX-DEF', 'INDEX-DTYPE'), 'each row\'s midpoints must lie between the extrema they separate: they are the arrays find_zerox returns, fallbacks included')],
+    'C01': [('c03', ('MID-DEF', 'ZEROX-DEF', 'INDEX-DTYPE'), 'each row\'s midpoints must lie between the extrema they separate: they are the arrays find_zerox returns, fallbacks included'),
+            ('c08', ('RAISES',), 'both detectors end in the run filter: an exception it raises for a valid table (few rows, a numpy-typed count) is "raises instead of returning a table"')],
     'C06': [('c13', ('RELABEL-ONLY-LIST',), 'with a per-epoch option list the epoch tables carry the labels of detect_bursts_cycles applied per epoch: its result must be what is stored')],
     'C12': [('c13', ('FLAT-ONCE', 'PARTITION'), 'axis 0 / 1: every slice goes through compute_features_2d(axis=None), whose flattening and epoching (epoch_df) C13 decides')],
     'C13': [('c08', ('SCHEMA',), 'per-epoch re-labelling runs the detectors, whose run filter C08 decides'),
@@ -54,7 +55,8 @@ BORROWED = {
                                                'origin (loaded, windowed), so it must recompute the edge cycles of whatever table it is given')],
     'C16': [('c06', ('LABEL-DEF',), 'the edited table is re-labelled by detect_bursts_cycles')],
     'C17': [('c03', ('MID-DEF', 'ZEROX-DEF', 'INDEX-DTYPE'), 'the midpoints the phase function indexes with are the arrays find_zerox returns')],
-    'C19': [('c01', ('PAIRING',), 'a documented option can only be rejected if it reaches its validator unchanged: compute_cyclepoints forwards find_extrema\'s options as given')],
+    'C19': [('c14', ('REDUCE',), 'the thresholds recompute_edges validates are the stored ones lowered by r, nothing else: a clipped or otherwise repaired value hides an out-of-range setting from the range check'),
+            ('c01', ('PAIRING',), 'a documented option can only be rejected if it reaches its validator unchanged: compute_cyclepoints forwards find_extrema\'s options as given')],
 }
 FRONT_END_PROPS = FRONT_END_PROPS + ('C19',)
 HISTORY_ROOTS.update({'C11': ['compute_features_2d'], 'C12': ['compute_features_3d'], 'C13': ['compute_features_2d', 'epoch_df'],
